@@ -257,4 +257,81 @@ theorem branchResult_none (r : String) (w0 : World)
             · simp [h6] at h
             · simp [h6] at h
 
+/-- what `crsOK` demands of the instance branch -/
+def InstGoal (b : List (String × String)) : Prop :=
+  match checkRandomState b (.inst ⟨1, 4⟩) { globalState := 5, next := 3, entropy := 9 } with
+  | some (.ok (g, w')) => (g == ⟨1, 4⟩ && w' == { globalState := 5, next := 3, entropy := 9 }) = true
+  | _ => False
+
+theorem testHolds_inst (t : String) (g g' : Gen) : testHolds t (.inst g) = testHolds t (.inst g') := by
+  unfold testHolds
+  split
+  · rfl
+  · split
+    · rfl
+    · split
+      · rfl
+      · rfl
+
+theorem branchResult_inst (r : String) (w0 : World)
+    (h : match branchResult r (.inst ⟨1, 4⟩) w0 with
+      | some (.ok (g, w')) => (g == ⟨1, 4⟩ && w' == w0) = true
+      | _ => False)
+    (hw : w0 = { globalState := 5, next := 3, entropy := 9 }) :
+    ∀ (g : Gen) (w : World), branchResult r (.inst g) w = some (.ok (g, w)) := by
+  subst hw
+  intro g w
+  unfold branchResult at h ⊢
+  by_cases h1 : (r == "entropy") = true
+  · simp only [h1, if_true] at h
+    simp at h
+  · simp only [h1] at h ⊢
+    by_cases h2 : (r == "seeded") = true
+    · simp [h2] at h
+    · simp only [h2] at h ⊢
+      by_cases h3 : (r == "same") = true
+      · simp [h3]
+      · simp only [h3] at h ⊢
+        by_cases h4 : (r == "global") = true
+        · simp only [h4, if_true] at h
+          simp at h
+        · simp only [h4] at h
+          by_cases h5 : (r == "raise:TypeError") = true
+          · simp [h5] at h
+          · simp only [h5] at h
+            by_cases h6 : (r == "raise:ValueError") = true
+            · simp [h6] at h
+            · simp [h6] at h
+
+theorem crs_inst (b : List (String × String)) (h : InstGoal b) (g : Gen) (w : World) :
+    checkRandomState b (.inst g) w = some (.ok (g, w)) := by
+  induction b with
+  | nil =>
+    unfold InstGoal checkRandomState at h
+    simp at h
+  | cons br rest ih =>
+    obtain ⟨t, r⟩ := br
+    unfold InstGoal at h
+    unfold checkRandomState at h ⊢
+    rw [testHolds_inst t g ⟨1, 4⟩]
+    cases hth : testHolds t (.inst ⟨1, 4⟩) with
+    | none => simp [hth] at h
+    | some bv =>
+      cases bv with
+      | true =>
+        simp only [hth] at h ⊢
+        exact branchResult_inst r _ h rfl g w
+      | false =>
+        simp only [hth] at h ⊢
+        exact ih h
+
+theorem historyOK_coreOK (tbl : List Est) (fuel : Nat) (e : Est) (h : e.historyOK tbl fuel = true) :
+    e.coreOK = true := by
+  cases fuel with
+  | zero => simp [Est.historyOK] at h
+  | succ n =>
+    unfold Est.historyOK at h
+    simp only [Bool.and_eq_true] at h
+    exact h.1.1.2
+
 end SkNet.Estimator
